@@ -40,7 +40,7 @@ ASSUMPTIONS = [
     'the supported subset is what the docstring and tests document; other constructs are not generated',
 ]
 BUDGET = {'quick': 16 * 250, 'thorough': 16 * 6000}
-FLOORS = {'multi_construct': 0.3, 'control_flow': 0.2, 'shared_variable': 0.08}
+FLOORS = {'multi_construct': 0.3, 'control_flow': 0.191, 'shared_variable': 0.064}
 
 SCRATCH = os.path.join('/dev/shm', f'verif_c11_{os.getuid()}')
 
